@@ -2,10 +2,12 @@
    Statements only; each is closed by [exact] of a lemma proved elsewhere.
    [reach v ops c]: c is reachable from the initial configuration of the operation list ops under
    SOME schedule (any interleaving of the threads' atomic sections); all theorems quantify over
-   all ops and all reachable c.  [fixed] = model of answer.go after the two fix: commits,
-   [as_found] / [f11_fixed] = the earlier code (kept for the refuted statements). *)
+   all ops and all reachable c.  [fixed] = model of answer.go as it is now (F11 fixed; resolve:
+   result known -> proxies fulfilled -> signals closed), [as_found] / [f11_fixed] / [late_fixed] =
+   earlier versions of the code (kept for the refuted statements).  Single promise: Join is not
+   in this model. *)
 From CV Require Import Promise.Promise Promise.PromiseProofs Promise.PromiseStepProofs Promise.MuProofs
-  Promise.PromiseTheorems.
+  Promise.PromiseTheorems Promise.PromiseLive.
 Open Scope Z_scope.
 
 (* the promise resolves at most once; Fulfill/Reject after the first one panics (OPanic), the
@@ -14,7 +16,7 @@ Theorem C11_resolve_once : forall ops c, reach fixed ops c ->
   (cnt is_resolved (events c) <= 1)%nat /\ (cnt is_begin (events c) <= 1)%nat /\
   (cnt is_resolved (events c) = 1%nat <-> sig_open c = false) /\
   forall t th, nth_error (threads c) t = Some th -> is_res_op (t_op th) = true -> t_pc th = PDone ->
-    t_out th = OPanic \/
+    (t_out th = OPanic /\ caller c = false) \/
     (t_out th = ORet /\ In (EBegin t) (events c) /\ In (EResolved t) (events c) /\
      result c = Some (op_res (t_op th))).
 Proof. exact resolve_once. Qed.
@@ -67,18 +69,58 @@ Theorem C11_client_idempotent_refuted :
 Proof. exact client_idempotent_refuted. Qed.
 Print Assumptions C11_client_idempotent_refuted.
 
-(* PARTIAL (waiters_released): once resolved, every unfinished waiter has an enabled step.  Not
-   proved: that a requested resolution always comes (needs no_stuck). *)
-Theorem C11_waiters_released_partial : forall ops c, reach fixed ops c -> sig_open c = false ->
+(* deadlock freedom: if no thread can take a step then either the application holds a call inside
+   the PipelineCaller (gated, not released), or every unfinished thread is a Done/Struct waiter, a
+   ReleaseClients call or the result's owner, at its start, on a promise whose caller is still set
+   (nobody has asked to resolve it; an unfinished Fulfill/Reject would be enabled) *)
+Theorem C11_no_stuck : forall ops c, reach fixed ops c -> all_disabled c ->
+  (exists t th, nth_error (threads c) t = Some th /\ t_pc th = PInCaller /\
+                op_gated (t_op th) = true /\ mem_nat t (gates c) = false) \/
+  (forall t th, nth_error (threads c) t = Some th -> t_pc th <> PDone ->
+     caller c = true /\ t_pc th = PStart /\ (t_op th = OWait \/ t_op th = ORelease \/ t_op th = OConsume)).
+Proof. exact no_stuck. Qed.
+Print Assumptions C11_no_stuck.
+
+(* waiters: once Done is closed every unfinished waiter has an enabled step; and when the system has
+   come to rest with no call held by the application and a Fulfill/Reject among the operations,
+   every operation (waiters, ReleaseClients, pipelined calls) has finished *)
+Theorem C11_waiters_enabled : forall ops c, reach fixed ops c -> done_open c = false ->
   forall t th, nth_error (threads c) t = Some th -> t_op th = OWait -> t_pc th <> PDone ->
                enabled fixed c t = true.
 Proof. exact waiters_released_partial. Qed.
-Print Assumptions C11_waiters_released_partial.
+Print Assumptions C11_waiters_enabled.
 
-(* no_stuck is NOT proved for the fixed model (see docs/C11.md); what is established is that it
-   FAILS on the model of the code before the second fix: a concrete deadlocked configuration
-   (replayed on the real code: corpus/C11-promise.txt), and that the same history completes on
-   the fixed model *)
+Theorem C11_waiters_released : forall ops c, reach fixed ops c -> all_disabled c ->
+  (forall t th, nth_error (threads c) t = Some th -> t_pc th = PInCaller ->
+                op_gated (t_op th) = true -> mem_nat t (gates c) = true) ->
+  (exists t th, nth_error (threads c) t = Some th /\ is_res_op (t_op th) = true) ->
+  forall t th, nth_error (threads c) t = Some th -> t_pc th = PDone.
+Proof. exact waiters_released. Qed.
+Print Assumptions C11_waiters_released.
+
+(* lifetime of the result: resolve reads it only before the resolution is signalled, i.e. before its
+   owner may release it; refuted on the withdrawn repair 5d7e7b2 (late_fixed) *)
+Theorem C11_result_read_alive : forall ops c t th x rest, reach fixed ops c ->
+  nth_error (threads c) t = Some th -> t_pc th = PFul (x :: rest) ->
+  done_open c = true /\ res_alive c = true.
+Proof. exact result_read_alive. Qed.
+Print Assumptions C11_result_read_alive.
+
+Theorem C11_result_lifetime_refuted :
+  let c := run late_fixed (init lifetime_history) [0%nat; 1%nat; 2%nat; 1%nat] in
+  match nth_error (threads c) 1 with
+  | Some th => t_pc th = PDone /\ t_out th = OPanic /\ res_alive c = false
+  | None => False
+  end.
+Proof. exact result_lifetime_refuted. Qed.
+Print Assumptions C11_result_lifetime_refuted.
+
+(* NOT proved: proxy_clients_resolved_and_released (every proxy handed out ends up with the result's
+   capability as target once Fulfill/Reject returned, and released once ReleaseClients returned);
+   checked by the correspondence run only.  Join / joined chains are not modelled. *)
+
+(* no_stuck FAILS on the model of the code before the deadlock repair: a concrete deadlocked
+   configuration (replayed on the real code at the time: corpus/C11-promise.txt) *)
 Theorem C11_no_stuck_refuted :
   match quiesce f11_fixed 1000 (init deadlock_history) 10 with
   | Some c => forallb (fun t => negb (enabled f11_fixed c t)) (all_tids c) = true /\
